@@ -275,7 +275,7 @@ def _pv(model, res, E):
     for o in outs:
         if o.imprecise or o.kind != 'return' or o.value.tag == 'err':
             continue
-        zero_rate = any(isinstance(s, Atom) and s.op == 'eq' and alt is True for (t, alt, s) in o.notes)
+        zero_rate = any(isinstance(s, Atom) and ((s.op == 'eq' and alt is True) or (s.op == 'ne' and alt is False)) for (t, alt, s) in o.notes)
         try:
             pv = PF.ratform(o.value)
         except PF.NotPolynomial as e:
@@ -327,9 +327,9 @@ def _atan2(model, res, E):
                 continue        # non-numeric text: an error (R1)
             zeros = {}
             for (t, alt, s) in o.notes:
-                if isinstance(s, Atom) and s.op == 'eq' and isinstance(s.args[1], Const) and s.args[1].value == 0:
+                if isinstance(s, Atom) and s.op in ('eq', 'ne') and isinstance(s.args[1], Const) and s.args[1].value == 0:
                     who = 'X' if 'X' in repr(s.args[0]) else ('Y' if 'Y' in repr(s.args[0]) else '?')
-                    zeros[who] = bool(alt)
+                    zeros[who] = bool(alt) if s.op == 'eq' else (not bool(alt))      # `v != 0` decided False means v is zero
                     # the comparison must be on the coerced value for text
             if o.kind == 'return' and isinstance(o.value, Err) and o.value.name == DIV0:
                 n_div += 1
